@@ -1,7 +1,526 @@
 /- helper lemmas for TjdProps/C11.lean -/
 import Mathlib.Algebra.Order.Field.Basic
+import Mathlib.Algebra.BigOperators.Group.List.Basic
+import Mathlib.Algebra.BigOperators.Ring.List
+import Mathlib.Tactic.Ring
+import Mathlib.Tactic.Linarith
+import Mathlib.Tactic.FieldSimp
 import TjdModel.Agg.Spec2
 import TjdLemmas.QPLemmas
-namespace Tjd.Agg
+namespace Tjd.Agg.Homog
+open Tjd Tjd.Agg
+set_option linter.unusedSectionVars false
+set_option linter.unusedSimpArgs false
 
-end Tjd.Agg
+variable {α : Type} [Field α] [LinearOrder α] [IsStrictOrderedRing α]
+
+/-! ### basic list-level linearity -/
+
+theorem smul_vadd' (t : α) (a b : Vec α) : smul t (vadd a b) = vadd (smul t a) (smul t b) := by
+  simp only [smul, vadd, List.map_zipWith, List.zipWith_map, mul_add]
+
+theorem smul_zeros' (t : α) (n : Nat) : smul t (zeros n : Vec α) = zeros n := by
+  simp [smul, zeros]
+
+theorem smul_smul_comm' (a b : α) (x : Vec α) : smul a (smul b x) = smul b (smul a x) := by
+  simp only [smul, List.map_map]
+  congr 1; funext y; simp only [Function.comp]; ring
+
+theorem smul_smul' (a b : α) (x : Vec α) : smul a (smul b x) = smul (a * b) x := by
+  simp only [smul, List.map_map]
+  congr 1; funext y; simp only [Function.comp]; ring
+
+theorem foldl_vadd_map_smul (t : α) : ∀ (xs : List (Vec α)) (acc : Vec α),
+    (xs.map (smul t)).foldl vadd (smul t acc) = smul t (xs.foldl vadd acc)
+  | [], acc => rfl
+  | x :: xs, acc => by
+    rw [List.map_cons, List.foldl_cons, List.foldl_cons, ← smul_vadd', foldl_vadd_map_smul t xs]
+
+theorem vsum_map_smul (t : α) (n : Nat) (xs : List (Vec α)) :
+    vsum n (xs.map (smul t)) = smul t (vsum n xs) := by
+  rw [vsum, vsum, ← foldl_vadd_map_smul, smul_zeros']
+
+theorem combine_map_smul (J : Mat α) (n : Nat) (w : Vec α) (t : α) :
+    combine n (J.map (smul t)) w = smul t (combine n J w) := by
+  rw [combine, combine, ← vsum_map_smul]
+  congr 1
+  rw [List.zipWith_map_right, List.map_zipWith]
+  congr 1; funext a b; exact smul_smul_comm' a t b
+
+theorem dot_smul_left (t : α) : ∀ (a b : Vec α), dot (smul t a) b = t * dot a b
+  | [], b => by simp [smul, dot_nil_left]
+  | a :: as, [] => by simp [dot_nil_right]
+  | a :: as, b :: bs => by
+    have := dot_smul_left t as bs
+    simp only [smul, List.map_cons] at this ⊢
+    rw [dot_cons_cons, dot_cons_cons, this]; ring
+
+theorem dot_smul_right (t : α) (a b : Vec α) : dot a (smul t b) = t * dot a b := by
+  rw [dot_comm', dot_smul_left, dot_comm']
+
+theorem list_sum_map_mul (t : α) (l : List α) : (l.map (t * ·)).sum = t * l.sum := by
+  induction l with
+  | nil => simp
+  | cons a l ih => simp [ih, mul_add]
+
+theorem matVec_map_smul (G : Mat α) (c : α) (v : Vec α) :
+    matVec (G.map (smul c)) v = smul c (matVec G v) := by
+  simp only [matVec, smul, List.map_map]
+  congr 1; funext r; simp only [Function.comp]; exact dot_smul_left c r v
+
+theorem matVec_smul (G : Mat α) (c : α) (v : Vec α) :
+    matVec G (smul c v) = smul c (matVec G v) := by
+  simp only [matVec, smul, List.map_map]
+  congr 1; funext r; simp only [Function.comp]; exact dot_smul_right c r v
+
+theorem gram_map_smul (J : Mat α) (t : α) : gram (J.map (smul t)) = (gram J).map (smul (t * t)) := by
+  unfold gram
+  rw [List.map_map, List.map_map]
+  apply List.map_congr_left
+  intro r _
+  show List.map (dot (smul t r)) (List.map (smul t) J) = List.map (t * t * ·) (List.map (dot r) J)
+  rw [List.map_map, List.map_map]
+  apply List.map_congr_left
+  intro r' _
+  show dot (smul t r) (smul t r') = t * t * dot r r'
+  rw [dot_smul_left, dot_smul_right]; ring
+
+theorem getD_map_smul (G : Mat α) (c : α) (j : Nat) :
+    (G.map (smul c)).getD j [] = smul c (G.getD j []) := by
+  simp only [List.getD_eq_getElem?_getD, List.getElem?_map]
+  cases G[j]? <;> simp [smul]
+
+/-! ### vmin / argminGap / Frank–Wolfe / PCGrad -/
+
+theorem foldl_min_map (c : α) (hc : 0 < c) : ∀ (xs : List α) (acc : α),
+    (xs.map (c * ·)).foldl (fun a b => if b < a then b else a) (c * acc) =
+      c * xs.foldl (fun a b => if b < a then b else a) acc
+  | [], acc => rfl
+  | x :: xs, acc => by
+    rw [List.map_cons, List.foldl_cons, List.foldl_cons]
+    by_cases h : x < acc
+    · rw [if_pos h, if_pos ((mul_lt_mul_iff_right₀ hc).mpr h)]; exact foldl_min_map c hc xs x
+    · rw [if_neg h, if_neg (fun h' => h ((mul_lt_mul_iff_right₀ hc).mp h'))]; exact foldl_min_map c hc xs acc
+
+theorem vmin_map_mul (c : α) (hc : 0 < c) (xs : List α) (d : α) :
+    vmin (xs.map (c * ·)) (c * d) = c * vmin xs d := by
+  unfold vmin
+  have : (xs.map (c * ·)).headD (c * d) = c * xs.headD d := by cases xs <;> rfl
+  rw [this, foldl_min_map c hc]
+
+theorem vmin_map_mul_ne (c : α) (hc : 0 < c) (xs : List α) (d d' : α) (h : xs ≠ []) :
+    vmin (xs.map (c * ·)) d' = c * vmin xs d := by
+  unfold vmin
+  have : (xs.map (c * ·)).headD d' = c * xs.headD d := by
+    cases xs with
+    | nil => exact absurd rfl h
+    | cons => rfl
+  rw [this, foldl_min_map c hc]
+
+theorem fwStep_unfold (G : Mat α) (alpha : Vec α) : fwStep G alpha = 
+  (let m := alpha.length
+  let ga := matVec G alpha
+  let t := (argminGap ga).1
+  let gap := (argminGap ga).2
+  let et : Vec α := oneHot m t
+  let a := dot alpha (matVec G et)
+  let b := dot alpha ga
+  let c := dot et (matVec G et)
+  let gamma : α := if c ≤ a then 1 else if b ≤ a then 0 else (b - a) / (b + c - (1 + 1) * a)
+  let alpha' := vadd (smul (1 - gamma) alpha) (smul gamma et)
+  (alpha', gamma, vmin [gap, absV (c - a), absV (b - a)] 1)) := by
+  rfl
+
+
+theorem argminGap_fst_map (c : α) (hc : 0 < c) (xs : List α) :
+    (argminGap (xs.map (c * ·))).1 = (argminGap xs).1 := by
+  unfold argminGap
+  simp only
+  have h0 : vmin (xs.map (c * ·)) 0 = c * vmin xs 0 := by
+    have := vmin_map_mul c hc xs 0
+    rwa [mul_zero] at this
+  have hp : ((fun p : α × Nat => decide (p.1 = c * vmin xs 0)) ∘ Prod.map (c * ·) id) =
+      fun p => decide (p.1 = vmin xs 0) := by
+    funext p; simp [mul_right_inj' hc.ne']
+  rw [h0, List.zipIdx_map, List.find?_map, Option.map_map, hp]
+  rfl
+
+theorem gamma_scale (c : α) (hc : 0 < c) (a b cc : α) :
+    (if c * cc ≤ c * a then (1:α) else if c * b ≤ c * a then 0 else
+      (c * b - c * a) / (c * b + c * cc - (1 + 1) * (c * a))) =
+    (if cc ≤ a then (1:α) else if b ≤ a then 0 else (b - a) / (b + cc - (1 + 1) * a)) := by
+  have e : (c * b - c * a) / (c * b + c * cc - (1 + 1) * (c * a)) = (b - a) / (b + cc - (1 + 1) * a) := by
+    rw [show c * b - c * a = c * (b - a) by ring,
+      show c * b + c * cc - (1 + 1) * (c * a) = c * (b + cc - (1 + 1) * a) by ring,
+      mul_div_mul_left _ _ hc.ne']
+  rw [e]
+  simp only [mul_le_mul_iff_right₀ hc]
+
+theorem fwStep_scale (G : Mat α) (a : Vec α) (c : α) (hc : 0 < c) :
+    (fwStep (G.map (smul c)) a).1 = (fwStep G a).1 ∧ (fwStep (G.map (smul c)) a).2.1 = (fwStep G a).2.1 := by
+  rw [fwStep_unfold, fwStep_unfold]
+  simp only
+  have hga : matVec (G.map (smul c)) a = (matVec G a).map (c * ·) := matVec_map_smul G c a
+  rw [hga, argminGap_fst_map c hc]
+  simp only [matVec_map_smul, dot_smul_right]
+  have := gamma_scale c hc (dot a (matVec G (oneHot a.length (argminGap (matVec G a)).1)))
+    (dot a (matVec G a)) 
+    (dot (oneHot a.length (argminGap (matVec G a)).1) (matVec G (oneHot a.length (argminGap (matVec G a)).1)))
+  rw [← smul, dot_smul_right, this]
+  exact ⟨rfl, rfl⟩
+
+theorem mgda_go_succ (G : Mat α) (epsilon : α) (k : Nat) (alpha : Vec α) (mg : α) :
+    mgdaWeights.go G epsilon (k + 1) alpha mg =
+      if (fwStep G alpha).2.1 < epsilon then
+        ((fwStep G alpha).1, vmin [mg, (fwStep G alpha).2.2, absV ((fwStep G alpha).2.1 - epsilon)] 1)
+      else mgdaWeights.go G epsilon k (fwStep G alpha).1
+        (vmin [mg, (fwStep G alpha).2.2, absV ((fwStep G alpha).2.1 - epsilon)] 1) := by
+  rfl
+
+theorem mgda_go_scale (G G' : Mat α) (epsilon : α)
+    (hfw : ∀ a, (fwStep G' a).1 = (fwStep G a).1 ∧ (fwStep G' a).2.1 = (fwStep G a).2.1) :
+    ∀ (k : Nat) (alpha : Vec α) (mg mg' : α),
+      (mgdaWeights.go G' epsilon k alpha mg').1 = (mgdaWeights.go G epsilon k alpha mg).1
+  | 0, alpha, mg, mg' => rfl
+  | k + 1, alpha, mg, mg' => by
+    rw [mgda_go_succ, mgda_go_succ, (hfw alpha).1, (hfw alpha).2]
+    split_ifs
+    · rfl
+    · exact mgda_go_scale G G' epsilon hfw k _ _ _
+
+/-- one PCGrad projection step (as in `pcgradWeights`) -/
+def pcStep (G : Mat α) (i : Nat) (st : Vec α × α) (j : Nat) : Vec α × α :=
+  if j = i then st else
+    let cw := st.1
+    let ip := dot (G.getD j []) cw
+    let mg := vmin [st.2, absV ip] 1
+    if ip < 0 then
+      (cw.zipIdx.map fun (x, k) => if k = j then x - ip / (G.getD j []).getD j 0 else x, mg)
+    else (cw, mg)
+
+theorem pcgradWeights_eq (G : Mat α) (perms : List (List Nat)) :
+    pcgradWeights G perms =
+      (vsum G.length (((List.range G.length).map fun i =>
+          (perms.getD i []).foldl (pcStep G i) (oneHot G.length i, (1 : α))).map (·.1)),
+        vmin (((List.range G.length).map fun i =>
+          (perms.getD i []).foldl (pcStep G i) (oneHot G.length i, (1 : α))).map (·.2)) 1) := rfl
+
+theorem pcStep_scale (G : Mat α) (c : α) (hc : 0 < c) (i j : Nat) (st st' : Vec α × α)
+    (h : st'.1 = st.1) : (pcStep (G.map (smul c)) i st' j).1 = (pcStep G i st j).1 := by
+  unfold pcStep
+  by_cases hj : j = i
+  · simp only [hj, if_true]; exact h
+  · simp only [hj, if_false]
+    rw [getD_map_smul, h, dot_smul_left, smul_getD]
+    have : c * dot (G.getD j []) st.1 < 0 ↔ dot (G.getD j []) st.1 < 0 := by
+      constructor
+      · intro h1; by_contra h2; have h2 := not_lt.mp h2; exact absurd h1 (not_lt.mpr (mul_nonneg hc.le h2))
+      · intro h1; exact mul_neg_of_pos_of_neg hc h1
+    by_cases hip : dot (G.getD j []) st.1 < 0
+    · rw [if_pos hip, if_pos (this.mpr hip), mul_div_mul_left _ _ hc.ne']
+    · rw [if_neg hip, if_neg (fun h' => hip (this.mp h'))]
+
+theorem pcFold_scale (G : Mat α) (c : α) (hc : 0 < c) (i : Nat) : ∀ (perm : List Nat)
+    (st st' : Vec α × α), st'.1 = st.1 →
+    (perm.foldl (pcStep (G.map (smul c)) i) st').1 = (perm.foldl (pcStep G i) st).1
+  | [], st, st', h => h
+  | j :: perm, st, st', h => by
+    rw [List.foldl_cons, List.foldl_cons]
+    exact pcFold_scale G c hc i perm _ _ (pcStep_scale G c hc i j st st' h)
+
+theorem pcgrad_scale (G : Mat α) (c : α) (hc : 0 < c) (perms : List (List Nat)) :
+    (pcgradWeights (G.map (smul c)) perms).1 = (pcgradWeights G perms).1 := by
+  rw [pcgradWeights_eq, pcgradWeights_eq]
+  simp only [List.length_map, List.map_map]
+  congr 1
+  apply List.map_congr_left
+  intro i _
+  exact pcFold_scale G c hc i _ _ _ rfl
+
+/-! ### regNormGram / TrimmedMean / GradDrop -/
+
+theorem regNormGram_scale (J : Mat α) (s normEps regEps t : α) (ht : 0 < t) (hs : normEps ≤ s)
+    (hts : normEps ≤ t * s) :
+    regNormGram (J.map (smul t)) (t * s) normEps regEps = regNormGram J s normEps regEps := by
+  unfold regNormGram
+  simp only [List.length_map, if_neg (not_lt.mpr hs), if_neg (not_lt.mpr hts)]
+  congr 1
+  rw [gram_map_smul, List.map_map]
+  apply List.map_congr_left
+  intro row _
+  show List.map (· / (t * s * (t * s))) (List.map (t * t * ·) row) = _
+  rw [List.map_map]
+  apply List.map_congr_left
+  intro x _
+  show t * t * x / (t * s * (t * s)) = x / (s * s)
+  rw [show t * s * (t * s) = t * t * (s * s) by ring, mul_div_mul_left _ _ (mul_pos ht ht).ne']
+
+theorem sortAsc_map_mul (t : α) (ht : 0 < t) (xs : List α) :
+    sortAsc (xs.map (t * ·)) = (sortAsc xs).map (t * ·) := by
+  unfold sortAsc
+  symm
+  apply List.map_mergeSort
+  intro a _ b _
+  rw [decide_eq_decide]
+  exact (mul_le_mul_iff_right₀ ht).symm
+
+theorem col_map_smul [Inhabited α] (J : Mat α) (m n : Nat) (hJ : MatWF J m n) (t : α) (c : Nat)
+    (hc : c < n) : col (J.map (smul t)) c = (col J c).map (t * ·) := by
+  unfold col
+  rw [List.map_map, List.map_map]
+  apply List.map_congr_left
+  intro r hr
+  have hl : c < r.length := by rw [hJ.2 r hr]; exact hc
+  simp [smul, List.getD_eq_getElem?_getD, List.getElem?_eq_getElem hl]
+
+theorem trimmedMeanCol_map_mul [Inhabited α] (b : Nat) (t : α) (ht : 0 < t) (xs : List α) :
+    trimmedMeanCol b (xs.map (t * ·)) = t * trimmedMeanCol b xs := by
+  unfold trimmedMeanCol
+  simp only [List.length_map]
+  rw [sortAsc_map_mul t ht, ← List.map_drop, ← List.map_take, list_sum_map_mul, mul_div_assoc]
+
+theorem trimmedMean_scale [Inhabited α] (b m n : Nat) (J : Mat α) (hJ : MatWF J m n) (t : α)
+    (ht : 0 < t) : trimmedMean b n (J.map (smul t)) = smul t (trimmedMean b n J) := by
+  unfold trimmedMean
+  rw [smul, List.map_map]
+  apply List.map_congr_left
+  intro c hc
+  simp only [Function.comp]
+  rw [col_map_smul J m n hJ t c (List.mem_range.mp hc), trimmedMeanCol_map_mul b t ht]
+
+theorem absV_mul (t : α) (ht : 0 < t) (x : α) : absV (t * x) = t * absV x := by
+  unfold absV
+  have : t * x < 0 ↔ x < 0 := by
+    constructor
+    · intro h1; by_contra h2; have h2 := not_lt.mp h2; exact absurd h1 (not_lt.mpr (mul_nonneg ht.le h2))
+    · intro h1; exact mul_neg_of_pos_of_neg ht h1
+  by_cases h : x < 0
+  · rw [if_pos h, if_pos (this.mpr h)]; ring
+  · rw [if_neg h, if_neg (fun h' => h (this.mp h'))]
+
+theorem sum_absV_map_mul (t : α) (ht : 0 < t) (xs : List α) :
+    ((xs.map (t * ·)).map absV).sum = t * (xs.map absV).sum := by
+  rw [List.map_map, ← list_sum_map_mul, List.map_map]
+  congr 1
+  apply List.map_congr_left
+  intro x _
+  exact absV_mul t ht x
+
+/-- the GradDrop value of one column -/
+def graddropCol (column leak : Vec α) (u : α) : α :=
+    let s := column.sum
+    let a := (column.map absV).sum
+    let pos : Bool := if a = 0 then false else decide (u < (1 + s / a) / (1 + 1))
+    let neg : Bool := if a = 0 then false else decide ((1 + s / a) / (1 + 1) < u)
+    (column.zipIdx.map fun (x, i) =>
+      let mask : α := (if pos && decide (0 < x) then 1 else 0) + (if neg && decide (x < 0) then 1 else 0)
+      let l := leak.getD i 0
+      (l + (1 - l) * mask) * x).sum
+
+theorem graddrop_eq [Inhabited α] (J : Mat α) (leak U : Vec α) (n : Nat) :
+    graddrop J leak U n = (List.range n).map fun c => graddropCol (col J c) leak (U.getD c 0) := rfl
+
+theorem graddropCol_map_mul (t : α) (ht : 0 < t) (column leak : Vec α) (u : α) :
+    graddropCol (column.map (t * ·)) leak u = t * graddropCol column leak u := by
+  unfold graddropCol
+  simp only
+  rw [sum_absV_map_mul t ht, list_sum_map_mul]
+  have ha : t * (column.map absV).sum = 0 ↔ (column.map absV).sum = 0 := by
+    rw [mul_eq_zero]; exact ⟨fun h => h.resolve_left ht.ne', Or.inr⟩
+  have hd : t * column.sum / (t * (column.map absV).sum) = column.sum / (column.map absV).sum :=
+    mul_div_mul_left _ _ ht.ne'
+  rw [hd]
+  simp only [ha]
+  rw [← list_sum_map_mul, List.zipIdx_map, List.map_map, List.map_map]
+  congr 1
+  apply List.map_congr_left
+  rintro ⟨x, i⟩ _
+  simp only [Function.comp, Prod.map_fst, Prod.map_snd, id]
+  have h1 : (0 < t * x) ↔ 0 < x := by
+    constructor
+    · intro h; by_contra h2; have h2 := not_lt.mp h2
+      exact absurd h (not_lt.mpr (mul_nonpos_of_nonneg_of_nonpos ht.le h2))
+    · exact mul_pos ht
+  have h2 : t * x < 0 ↔ x < 0 := by
+    constructor
+    · intro h1; by_contra h2; have h2 := not_lt.mp h2; exact absurd h1 (not_lt.mpr (mul_nonneg ht.le h2))
+    · intro h1; exact mul_neg_of_pos_of_neg ht h1
+  simp only [h1, h2]
+  ring
+
+theorem graddrop_scale [Inhabited α] (m n : Nat) (J : Mat α) (hJ : MatWF J m n) (leak U : Vec α)
+    (t : α) (ht : 0 < t) : graddrop (J.map (smul t)) leak U n = smul t (graddrop J leak U n) := by
+  rw [graddrop_eq, graddrop_eq, smul, List.map_map]
+  apply List.map_congr_left
+  intro c hc
+  simp only [Function.comp]
+  rw [col_map_smul J m n hJ t c (List.mem_range.mp hc), graddropCol_map_mul t ht]
+
+/-! ### ConFIG / Aligned-MTL -/
+
+/-- `configVec` with the unit-row matrix abstracted -/
+def configCore (U J : Mat α) (w : Vec α) (n : Nat) : Option (Vec α) :=
+  match solve (gram U) w w.length with
+  | none => none
+  | some y =>
+    if matVec (gram U) y = w then
+      let best := combine n U y
+      let bb := dot best best
+      if bb = 0 then some (zeros n)
+      else
+        let len := (J.map fun row => dot row best).sum
+        some (smul (len / bb) best)
+    else none
+
+theorem configVec_eq (J : Mat α) (d w : Vec α) (n : Nat) :
+    configVec J d w n = configCore (List.zipWith (fun row di => row.map (· / di)) J d) J w n := rfl
+
+theorem unitRows_scale (t : α) (ht : 0 < t) : ∀ (J : Mat α) (d : Vec α),
+    List.zipWith (fun row di => row.map (· / di)) (J.map (smul t)) (d.map (t * ·)) =
+      List.zipWith (fun row di => row.map (· / di)) J d := by
+  intro J d
+  rw [List.zipWith_map]
+  congr 1
+  funext row di
+  rw [smul, List.map_map]
+  apply List.map_congr_left
+  intro x _
+  exact mul_div_mul_left _ _ ht.ne'
+
+theorem configCore_scale (U J : Mat α) (w : Vec α) (n : Nat) (t : α) :
+    configCore U (J.map (smul t)) w n = (configCore U J w n).map (smul t) := by
+  unfold configCore
+  cases solve (gram U) w w.length with
+  | none => rfl
+  | some y =>
+    simp only
+    by_cases h1 : matVec (gram U) y = w
+    · rw [if_pos h1, if_pos h1]
+      by_cases h2 : dot (combine n U y) (combine n U y) = 0
+      · rw [if_pos h2, if_pos h2, Option.map_some, smul_zeros']
+      · rw [if_neg h2, if_neg h2, Option.map_some, smul_smul', List.map_map]
+        have : (List.map ((fun row => dot row (combine n U y)) ∘ smul t) J).sum =
+            t * (List.map (fun row => dot row (combine n U y)) J).sum := by
+          rw [← list_sum_map_mul, List.map_map]
+          congr 1
+          apply List.map_congr_left
+          intro r _
+          exact dot_smul_left t r _
+        rw [this, mul_div_assoc]
+    · rw [if_neg h1, if_neg h1]; rfl
+
+theorem configVec_scale (J : Mat α) (d w : Vec α) (n : Nat) (t : α) (ht : 0 < t) :
+    configVec (J.map (smul t)) (d.map (t * ·)) w n = (configVec J d w n).map (smul t) := by
+  rw [configVec_eq, configVec_eq, unitRows_scale t ht, configCore_scale]
+
+theorem gram_length (J : Mat α) : (gram J).length = J.length := by simp [gram]
+
+theorem alignedCert_scale (M : Mat α) (vecs : Mat α) (sigma : Vec α) (t : α) (ht : 0 < t) :
+    alignedCert (M.map (smul (t * t))) vecs (sigma.map (t * ·)) = alignedCert M vecs sigma := by
+  unfold alignedCert
+  simp only [List.length_map]
+  congr 1
+  · congr 1
+    congr 1
+    rw [List.all_map]
+    congr 1
+    funext s
+    simp only [Function.comp]
+    rw [decide_eq_decide]
+    exact ⟨fun h => by
+      rcases lt_trichotomy 0 s with h1 | h1 | h1
+      · exact h1
+      · rw [← h1, mul_zero] at h; exact absurd h (lt_irrefl _)
+      · exact absurd h (not_lt.mpr (mul_nonpos_of_nonneg_of_nonpos ht.le h1.le)), mul_pos ht⟩
+  · congr 1
+    funext a
+    congr 1
+    funext b
+    rw [decide_eq_decide, getD_map_smul, smul_getD, List.zipWith_map_right]
+    have : (List.zipWith (fun (v : Vec α) s => t * s * (t * s) * v.getD a 0 * v.getD b 0) vecs sigma) =
+        (List.zipWith (fun (v : Vec α) s => s * s * v.getD a 0 * v.getD b 0) vecs sigma).map (t * t * ·) := by
+      rw [List.map_zipWith]
+      congr 1
+      funext v s
+      ring
+    rw [this, list_sum_map_mul]
+    exact mul_right_inj' (mul_pos ht ht).ne'
+
+theorem alignedWeights_scale (J : Mat α) (vecs : Mat α)
+    (sigma w : Vec α) (t : α) (ht : 0 < t) (hs : sigma ≠ []) :
+    alignedWeights (J.map (smul t)) vecs (sigma.map (t * ·)) w = alignedWeights J vecs sigma w := by
+  unfold alignedWeights
+  simp only [gram_map_smul, alignedCert_scale _ vecs sigma t ht, List.length_map, List.isEmpty_map]
+  rw [vmin_map_mul_ne t ht sigma 1 1 hs, List.zipWith_map_right]
+  have : (fun (v : Vec α) s => smul (t * vmin sigma 1 / (t * s) * dot v w) v) =
+      fun v s => smul (vmin sigma 1 / s * dot v w) v := by
+    funext v s
+    rw [mul_div_mul_left _ _ ht.ne']
+  rw [this]
+
+/-! ### IMTL-G -/
+
+theorem solve_length (A : Mat α) (b : Vec α) (n : Nat) (x : Vec α) (h : solve A b n = some x) :
+    x.length = n := by
+  unfold solve at h
+  simp only at h
+  split at h
+  · exact absurd h (by simp)
+  · simp only [Option.some.injEq] at h
+    rw [← h, List.length_map, List.length_range]
+
+theorem imtlg_spec (J : Mat α) (d : Vec α) (guard : α) (w : Vec α)
+    (h : imtlgWeights J d guard = some w) :
+    ∃ v : Vec α, v.length = d.length ∧ matVec (gram J) v = d ∧
+      w = if absV v.sum ≤ guard * (v.map absV).sum then zeros d.length else v.map (· / v.sum) := by
+  unfold imtlgWeights at h
+  simp only at h
+  cases hsol : solve (gram J) d d.length with
+  | none => rw [hsol] at h; exact absurd h (by simp)
+  | some v =>
+    rw [hsol] at h
+    simp only at h
+    refine ⟨v, solve_length _ _ _ _ hsol, ?_⟩
+    by_cases h1 : matVec (gram J) v = d
+    · rw [if_pos h1] at h
+      refine ⟨h1, ?_⟩
+      split_ifs at h ⊢ <;> exact (Option.some.inj h).symm
+    · rw [if_neg h1] at h; exact absurd h (by simp)
+
+theorem smul_injective' (t : α) (ht : t ≠ 0) (a b : Vec α) (h : smul t a = smul t b) : a = b := by
+  have := congrArg (smul t⁻¹) h
+  rwa [smul_smul', smul_smul', inv_mul_cancel₀ ht, smul, smul, 
+    show (fun x : α => 1 * x) = id from funext one_mul, List.map_id, List.map_id] at this
+
+theorem imtlg_scale (J : Mat α) (m : Nat) (d : Vec α)
+    (hd : d.length = m) (guard t : α) (ht : 0 < t)
+    (huniq : ∀ v v' : Vec α, v.length = m → v'.length = m → matVec (gram J) v = d →
+        matVec (gram J) v' = d → v = v')
+    (w w' : Vec α) (h : imtlgWeights J d guard = some w)
+    (h' : imtlgWeights (J.map (smul t)) (d.map (t * ·)) guard = some w') : w' = w := by
+  obtain ⟨v, hvl, hv, hw⟩ := imtlg_spec J d guard w h
+  obtain ⟨v', hvl', hv', hw'⟩ := imtlg_spec _ _ guard w' h'
+  rw [List.length_map] at hvl' hw'
+  rw [gram_map_smul, matVec_map_smul, ← smul_smul'] at hv'
+  have hv'' : matVec (gram J) (smul t v') = d := by
+    rw [matVec_smul]
+    exact smul_injective' t ht.ne' _ _ hv'
+  have hvv : v = smul t v' :=
+    huniq v (smul t v') (hvl.trans hd) ((smul_length t v').trans (hvl'.trans hd)) hv hv''
+  have hsum : v.sum = t * v'.sum := by rw [hvv]; exact list_sum_map_mul t v'
+  have habs : (v.map absV).sum = t * (v'.map absV).sum := by
+    rw [hvv]; exact sum_absV_map_mul t ht v'
+  rw [hw, hw', hsum, habs, absV_mul t ht]
+  have hg : t * absV v'.sum ≤ guard * (t * (v'.map absV).sum) ↔
+      absV v'.sum ≤ guard * (v'.map absV).sum := by
+    rw [show guard * (t * (v'.map absV).sum) = t * (guard * (v'.map absV).sum) by ring]
+    exact mul_le_mul_iff_right₀ ht
+  simp only [hg]
+  split_ifs
+  · rfl
+  · rw [hvv, smul, List.map_map]
+    apply List.map_congr_left
+    intro x _
+    exact (mul_div_mul_left _ _ ht.ne').symm
+
+end Tjd.Agg.Homog
